@@ -1286,6 +1286,68 @@ func (p *Prover) Obligations(in ssa.Instruction) []Obligation {
 	return res
 }
 
+// CopyObligation: copy(dst, src) transfers min(len(dst), len(src)) elements and reports nothing when that is fewer than
+// len(src); "the whole source arrives" is the requirement len(src) <= len(dst).
+func (p *Prover) CopyObligation(call *ssa.Call) (Obligation, bool) {
+	b, ok := call.Call.Value.(*ssa.Builtin)
+	if !ok || b.Name() != "copy" || len(call.Call.Args) != 2 {
+		return Obligation{}, false
+	}
+	ld, ok1 := p.exactLen(call.Call.Args[0])
+	ls, ok2 := p.exactLen(call.Call.Args[1])
+	if !ok1 || !ok2 {
+		return Obligation{}, false
+	}
+	return Obligation{"copy source fits destination", Query{ls, ld, 0}}, true
+}
+
+// NonEmptyObligation: len(v) >= 1.
+func (p *Prover) NonEmptyObligation(v ssa.Value) (Obligation, bool) {
+	l, ok := p.exactLen(v)
+	if !ok {
+		return Obligation{}, false
+	}
+	return Obligation{"buffer is not empty", Query{term{zero, 1}, l, 0}}, true
+}
+
+// exactLen: the length of a value where it is known by construction – make([]T, n) has length n, x[lo:lo+k] has length k,
+// x[lo:hi] of constants has hi-lo – otherwise its symbolic length.
+func (p *Prover) exactLen(v ssa.Value) (term, bool) {
+	switch x := v.(type) {
+	case *ssa.MakeSlice:
+		return p.termOf(x.Len), true
+	case *ssa.Slice:
+		if x.High != nil {
+			hi := p.termOf(x.High)
+			lo := term{zero, 0}
+			if x.Low != nil {
+				lo = p.termOf(x.Low)
+			}
+			if hi.a == lo.a {
+				return term{zero, hi.c - lo.c}, true
+			}
+			if hi.a.k == kSum {
+				parts := p.sums[hi.a.key]
+				if parts[0] == lo.a {
+					return term{parts[1], hi.c - lo.c}, true
+				}
+				if parts[1] == lo.a {
+					return term{parts[0], hi.c - lo.c}, true
+				}
+			}
+		} else if x.Low != nil {
+			// x[lo:] of an array: len = N - lo for constant lo
+			if L, ok := p.lenTermOfBase(x.X); ok && L.a == zero {
+				lo := p.termOf(x.Low)
+				if lo.a == zero {
+					return term{zero, L.c - lo.c}, true
+				}
+			}
+		}
+	}
+	return p.lenTermOfBase(v)
+}
+
 // Prove decides one obligation at instruction `at`.
 func (p *Prover) Prove(o Obligation, at ssa.Instruction) (bool, string) {
 	return p.prove(o.Q, core.DomConds(at), nil, 3)
